@@ -280,6 +280,10 @@ def gen_inline_doc(rng, name, fields):
     body = [f"  {f}::{pick(rng, vals)}" for f in fields if rng.random() < .85]
     body += [f"  {u}::{pick(rng, vals)}" for u in rng.sample(UNKNOWN_FIELDS, pick(rng, [0, 0, 2, 3, 5]))]
     rng.shuffle(body)
+    if rng.random() < .35:
+        # a nested block that declares a routing target of its own ([->T]): whatever it contributes to the validator's view of
+        # valid targets must stay with this call (the same names appear as field targets in INLINE_TARGETS)
+        body += [f"  {pick(rng, ['NOTES', 'LOG'])}[{pick(rng, ['->', '→§', '→'])}{pick(rng, ['NOWHERE', 'RISK_LOG', 'T_Z'])}]:", "    X::1"]
     return "\n".join(L + body + ["===END==="]) + "\n"
 
 
